@@ -367,6 +367,8 @@ func buildPSFile(fixture string) func(env *Env, v Variant) ([]*Artifact, error) 
 			a.Semantic = append(a.Semantic, SemMut{Class: "insert-before-container", Site: "script-line-at-start", Data: d3, Assert: true, Why: "script text before the signature block is digested"})
 		}
 		a.Semantic = append(a.Semantic, cmsSemantics(env, v, p.blob, func(nb []byte) ([]byte, error) { return psEmbed(s, p, nb), nil })...)
+		// markers of the block repeated at every line boundary (psmarkers.go)
+		a.Semantic = append(a.Semantic, psMarkerFamily(s, p.blockStart, p.pre, p.post, false, "")...)
 		return []*Artifact{a}, nil
 	}
 }
